@@ -182,7 +182,7 @@ def run_case(ctx, data, plan, mode, pseed, foreign=True, label="gen"):
              budget=6 * len(data) + 64 + 8 * len(plan))
     ctx.hit("seekable_stream" if cls is doubles.SeekableRecordingStream else (
         "raw_iobase_stream" if cls is doubles.RawRecordingStream else "plain_stream"))
-    rdr = RTCMReader(ds, validate=1, quitonerror=mode, errorhandler=(lambda e: None))
+    rdr = RTCMReader(ds, validate=1, quitonerror=mode, errorhandler=(lambda e: None), labelmsm=(1, 2, True)[len(data) % 3])
     delivered = []
     after_fault = 0
     idle = 0
@@ -278,7 +278,8 @@ def socket_case(ctx, data, sched, bufsize, mode):
     delivered = []
     try:
         try:
-            rdr = RTCMReader(sock, validate=1, quitonerror=mode, bufsize=bufsize, errorhandler=(lambda e: None))
+            rdr = RTCMReader(sock, validate=1, quitonerror=mode, bufsize=bufsize, errorhandler=(lambda e: None),
+                             labelmsm=(1, 2, True)[len(data) % 3])
             idle = 0
             guard = len(data) + 4 * len(sched) + 32
             while guard > 0 and idle < len(sched) + 4:
